@@ -33,7 +33,7 @@ from simkit.world import World, SEAM, SimFault, SimBodyError, quiet
 class TrainSim(Sim):
     PROP = "C20"
     NAME = "trainsim"
-    QUICK_RUNS = 3000
+    QUICK_RUNS = 10000
     THOROUGH_RUNS = 100000
     MAX_EVENTS = 6
     RUN_TIMEOUT = 120
